@@ -542,6 +542,7 @@ func runGram(c *explore.Ctx, side *gramSide) {
 		sepProfiles(c, side, g, gen.SDLProfiles)
 		sourcesSub(c, side, g)
 	}
+	valuesSub(c, side, g)
 	corpusSub(c, side, g)
 }
 
